@@ -366,6 +366,78 @@ Definition poly_read {E} (rd : stream -> E * stream) (s : stream) (garbage : Z) 
 Definition poly_degfmt (wr : Z -> list Z) (P : list Z) : list Z :=
   print_Z (Z.of_nat (length P) - 1) ++ flat_map (fun c => 32 :: wr c) (rev P).
 
+(* ------------------------------------------------------------------ the polynomial an algebraic text denotes *)
+(* NOT part of givaro: a reference parser of the syntax Poly1Dom::write prints, used to state (ProofsPoly.v) that the text
+   determines the polynomial, and run on the implementation's output at check time.
+   Result: the list of (degree, coefficient) of the terms, in the order written. *)
+Fixpoint strip_prefix (p l : list Z) : option (list Z) :=
+  match p with
+  | [] => Some l
+  | a :: p' => match l with b :: l' => if a =? b then strip_prefix p' l' else None | [] => None end
+  end.
+Definition parse_int (l : list Z) : option (Z * list Z) :=
+  let '(neg, l1) := match l with c :: t => if c =? 45 then (true, t) else (false, l) | [] => (false, l) end in
+  let '(n, ok, l2) := scan_digits l1 0 false in
+  if ok then Some ((if neg then - n else n), l2) else None.
+(* var [ ^ digits ] *)
+Definition parse_mono (var l : list Z) : option (Z * list Z) :=
+  match strip_prefix var l with
+  | None => None
+  | Some l1 =>
+      match l1 with
+      | c :: l2 => if c =? 94 then
+                     let '(n, ok, l3) := scan_digits l2 0 false in if ok then Some (n, l3) else None
+                   else Some (1, l1)
+      | [] => Some (1, l1)
+      end
+  end.
+(* (c) | (c)*mono | mono | 1 *)
+Definition parse_term (var l : list Z) : option ((Z * Z) * list Z) :=
+  match l with
+  | c0 :: l1 =>
+      if c0 =? 40 then
+        match parse_int l1 with
+        | Some (c, c1 :: l2) =>
+            if c1 =? 41 then
+              match l2 with
+              | c2 :: l3 => if c2 =? 42 then
+                              match parse_mono var l3 with Some (i, l4) => Some ((i, c), l4) | None => None end
+                            else Some ((0, c), l2)
+              | [] => Some ((0, c), l2)
+              end
+            else None
+        | _ => None
+        end
+      else
+        match parse_mono var l with
+        | Some (i, l1') => Some ((i, 1), l1')
+        | None => if c0 =? 49 then Some ((0, 1), l1) else None
+        end
+  | [] => None
+  end.
+Fixpoint parse_terms (fuel : nat) (var l : list Z) : option (list (Z * Z)) :=
+  match fuel with
+  | O => None
+  | S f =>
+      match parse_term var l with
+      | None => None
+      | Some (t, l1) =>
+          match l1 with
+          | [] => Some [t]
+          | a :: b :: c :: l2 =>
+              if (a =? 32) && (b =? 43) && (c =? 32) then
+                match parse_terms f var l2 with Some ts => Some (t :: ts) | None => None end
+              else None
+          | _ => None
+          end
+      end
+  end.
+Definition poly_parse (var l : list Z) : option (list (Z * Z)) :=
+  match l with
+  | [c] => if c =? 48 then Some [] else parse_terms (S (length l)) var l
+  | _ => parse_terms (S (length l)) var l
+  end.
+
 (* ------------------------------------------------------------------ Z-level entry points for extraction *)
 Definition res3 (r : Z * stream) := (fst r, rest (snd r), eofb (snd r), failb (snd r)).
 Definition x_int_read (l : list Z) (old : Z) := res3 (Integer_in (from_chars l) old).
@@ -411,5 +483,6 @@ Definition x_poly_write (var : list Z) (bal : bool) (p : Z) (R : list Z) :=
 Definition x_poly_read (bal : bool) (p : Z) (l : list Z) :=
   let '(P, s) := poly_read (elt_read (x_init bal p)) (from_chars l) 0 in
   (P, rest s, eofb s, failb s).
+Definition x_poly_parse (var l : list Z) := poly_parse var l.
 Definition x_poly_degfmt (bal : bool) (p : Z) (R : list Z) :=
   poly_degfmt elt_write (map (x_init bal p) R).
